@@ -257,6 +257,8 @@ def run(ctx):
     ctx.decide(okm_, "C11.keys", bcs0.ident, loc_of(bcs0), "the base payload is updated with _checkpoint_extra_state() (random state, history and other per-sampler extras)",
                "build_checkpoint_state does not merge _checkpoint_extra_state() into the payload: the generator state and the history never reach a checkpoint", disc="extras")
 
+    from .smcloop import forwarding_rule
+    forwarding_rule(ctx, "C11.src", ("resume_from",), "resuming with that sampler silently starts a fresh run")
     # ---- the three documented checkpoint sources: path -> file loader, bytes -> unpickled, dict -> used as is
     base_cls = repo.cls("aspire.samplers.base:Sampler")
     brf = base_cls.resolve("restore_from_checkpoint")
@@ -608,6 +610,7 @@ MUTANTS += [
     M("stored temperature overridden by the root default", _B, "if beta is None:\n            beta = state.get(\"beta\", 0.0)", "if beta is not None:\n            beta = state.get(\"beta\", 0.0)", "C11.restore"),
     M("generator state restored only when absent", _B, "if rng_state is not None and hasattr(self.rng, \"bit_generator\"):", "if rng_state is None and hasattr(self.rng, \"bit_generator\"):", "C11.restore"),
     M("extras not merged into the payload", "src/aspire/samplers/base.py", "base_state.update(self._checkpoint_extra_state())\n", "", "C11.keys"),
+    M("minipcn sampler drops resume_from", "src/aspire/samplers/smc/minipcn.py", "resume_from=resume_from,\n", "", "C11.src"),
     M("bytes checkpoints treated as paths", "src/aspire/samplers/base.py", "if isinstance(source, str):\n            state = self.load_checkpoint_from_file(source)\n        elif isinstance(source, bytes):\n            state = pickle.loads(source)",
       "if isinstance(source, (str, bytes)):\n            state = self.load_checkpoint_from_file(source)", "C11.src"),
     M("extra sampler state never restored", "src/aspire/samplers/base.py", "self._restore_extra_state(state)\n        return samples, state", "return samples, state", ("C11.src", "C11.state")),
